@@ -15,7 +15,7 @@ RULE = ("two-run histories over 1-3 feature files with passing / assertion / exc
         "scenarios, plain and outline rows, inside and outside rules: run -> rerun file -> second run through @file; "
         "also a stale rerun file before an all-green run; non-trivial = the rerun file lists some but not all scenarios")
 LEVEL_TEXT = ("Theorems: the rerun list of any result forest is exactly the scenarios with a has_failed status in run order, it is empty "
-              "(file removed) when there are none, and - composing with Select.v - feeding the lines of any set of scenarios/rows of a "
+              "(file removed) when there are none, a subsequence of the run's scenario ids without duplicates, and - composing with Select.v - feeding the lines of any set of scenarios/rows of a "
               "document with distinct entity lines back selects exactly that set.  Checked against real two-run histories.")
 LEVEL_NOTE = "Trusted: Coq kernel, two-run driver."
 
